@@ -7,6 +7,7 @@ import (
 	"hash/fnv"
 	"io"
 	"os"
+	"path"
 	"path/filepath"
 	"sort"
 	"strconv"
@@ -16,6 +17,9 @@ import (
 	"github.com/google/uuid"
 	_ "github.com/mattn/go-sqlite3"
 
+	"github.com/wrgl/wrgl/pkg/conf"
+	conffs "github.com/wrgl/wrgl/pkg/conf/fs"
+	"github.com/wrgl/wrgl/pkg/local"
 	"github.com/wrgl/wrgl/pkg/ref"
 	reffs "github.com/wrgl/wrgl/pkg/ref/fs"
 	refsql "github.com/wrgl/wrgl/pkg/ref/sql"
@@ -26,8 +30,11 @@ import (
 // C15: the SQL ref store (pkg/ref/sql over a real in-memory SQLite) and the helpers of
 // pkg/ref/refs.go vs the model coq/model/RefSql.v and vs a plain Go map with per-name logs.
 //
-// case  = (0 (op ...))        an operation sequence on a fresh store
+// case  = (0 (op ...))        an operation sequence on a fresh store (in-memory SQLite)
 //       | (1 p s)             SQLite predicates: obs = (like(p||'%', s)  instr(s,p)=1)
+//       | (2 (op ...))        the same on an on-disk repository directory (pkg/local RepoDir, sqlite.db
+//                             file), where ops 17/18 run the real `wrgl remote rename|remove` commands
+//       | (3 (op ...))        as 0, and the file store is always run (long-log cases)
 // op    = (0 k v) Set | (1 k v meta) SetWithLog | (2 k) Get | (3 k) Delete
 //       | (4 (p ...) (n ...)) Filter | (5 (p ...) (n ...)) FilterKey
 //       | (6 a b) Rename | (7 a b) Copy | (8 k) LogReader + Read until EOF/error
@@ -36,6 +43,7 @@ import (
 //       | (12 kind arg) ListHeads(0) ListTags(1) ListRemoteRefs(2 arg) ListTransactionRefs(3 arg)
 //       | (13 a b) RenameRef | (14 a b) CopyRef | (15 k v meta) SaveRef
 //       | (16 (p ...) (n ...)) ListLocalRefs
+//       | (17 r r') `wrgl remote rename r r'` (r != r') | (18 r) `wrgl remote remove r`   (kind-2 cases only)
 // meta  = (author email action message txid?)      txid? = () | (16 bytes)
 // obs   = (res ...) one per op
 // res   = (0) ok | (1) error | (2) panic | (3 v) | (4 ((k v) ...)) sorted by k
@@ -44,8 +52,12 @@ import (
 //
 // Oracle (independent of the Coq model): map[string][]byte + map[string][]entry, literal
 // strings.HasPrefix; after every step the tables are read back with plain SQL and compared with it.
-// The same sequence is also run on the file store pkg/ref/fs; differences from the oracle are
-// counted per class (fs_diff_*), not failed: that store has directory semantics (see report).
+// The same sequence is also run on the file store pkg/ref/fs.  That store has directory semantics,
+// so it is judged STRICTLY (oracle class fs-*) only inside the sub-domain where a directory tree can
+// behave like a flat map (c15FSDomain below: clean names that never conflict as file vs directory,
+// text-representable reflog fields, deletes/renames/copies whose preconditions hold, single
+// directory-prefix listings); strictness lasts until the first MUTATING step outside the sub-domain,
+// after which differences are only counted per class (fs_diff_*).
 
 func init() { props["C15"] = &Prop{Gen: genC15, Run: runC15} }
 
@@ -80,12 +92,17 @@ var c15Metas = []c15Meta{
 
 var c15Remotes = []string{"a_b", "acb", "A_B", "a%", "a", "a/b", "ab", "z", "%", "_", "a_"}
 
+// remote names that occur inside the namespace literals ("remotes/", "heads/", "tags/", "txs/")
+var c15NsRemotes = []string{"o", "s", "e", "r", "m", "t", "es", "remote", "remotes", "heads", "tags", "txs"}
+
+func c15AllRemotes() []string { return append(append([]string{}, c15Remotes...), c15NsRemotes...) }
+
 func c15Names() []string {
 	ns := []string{}
-	for _, r := range c15Remotes {
+	for _, r := range c15AllRemotes() {
 		ns = append(ns, "remotes/"+r+"/x")
 	}
-	ns = append(ns, "remotes/a_b/y", "remotes/a/b/c", "remotes/a_b/x/y",
+	ns = append(ns, "remotes/o/remotes/o", "remotes/remotes/heads", "heads/o", "tags/s", "remotes/a_b/y", "remotes/a/b/c", "remotes/a_b/x/y",
 		"heads/a", "heads/ab", "heads/a/b", "heads/A", "heads/a_", "heads/a%", "heads/_", "tags/a", "tags/A", "remotesX/a",
 		"txs/"+c15Txids[0]+"/a", "txs/"+c15Txids[0]+"/b", "txs/"+c15Txids[1]+"/a")
 	return ns
@@ -105,7 +122,8 @@ func c15List(kind int, arg string) *xt.T   { return xt.N(xt.LI(12), xt.LI(kind),
 func c15SaveRef(k string, v []byte, m c15Meta) *xt.T {
 	return xt.N(xt.LI(15), xt.Str(k), xt.Bytes(v), c15MetaT(m))
 }
-func c15Seq(ops ...*xt.T) *xt.T { return xt.N(xt.LI(0), xt.N(ops...)) }
+func c15Seq(ops ...*xt.T) *xt.T               { return xt.N(xt.LI(0), xt.N(ops...)) }
+func c15SeqKind(kind int, ops ...*xt.T) *xt.T { return xt.N(xt.LI(kind), xt.N(ops...)) }
 
 // observation suffix: everything a client can see about the given names/remotes
 func c15Observe(names, remotes []string) []*xt.T {
@@ -198,6 +216,7 @@ func genC15(ctx *Ctx) []Case {
 
 	// ---- random sequences over the collision alphabet
 	names := c15Names()
+	allRemotes := c15AllRemotes()
 	pick := func(l []string) string { return l[ctx.Pick(len(l))] }
 	pickPs := func(max int) []string {
 		n := ctx.Pick(max + 1)
@@ -258,10 +277,10 @@ func genC15(ctx *Ctx) []Case {
 				ops = append(ops, c15K(8, pick(sub)))
 				ctx.Count("op_logread")
 			case r < 82:
-				ops = append(ops, c15K(9, pick(c15Remotes)))
+				ops = append(ops, c15K(9, pick(allRemotes)))
 				ctx.Count("op_delremote")
 			case r < 88:
-				ops = append(ops, c15KK(10, pick(c15Remotes), pick(c15Remotes)))
+				ops = append(ops, c15KK(10, pick(allRemotes), pick(allRemotes)))
 				ctx.Count("op_renremote")
 			case r < 90:
 				ops = append(ops, c15K(11, pick(c15Txids)))
@@ -270,7 +289,7 @@ func genC15(ctx *Ctx) []Case {
 				k := ctx.Pick(4)
 				arg := ""
 				if k == 2 {
-					arg = pick(c15Remotes)
+					arg = pick(allRemotes)
 				} else if k == 3 {
 					arg = pick(c15Txids)
 				}
@@ -292,6 +311,157 @@ func genC15(ctx *Ctx) []Case {
 			ops = append(ops, c15K(8, n))
 		}
 		add("rand", nops >= 2, c15Seq(ops...))
+	}
+
+	// ---- remotes whose name occurs inside a namespace literal: bulk rename / delete / list must go
+	// by position (the prefix remotes/<name>/), never by searching for the name
+	nsOld := append(append([]string{}, c15NsRemotes...), "a_b", "origin")
+	nsNew := []string{"origin", "z", "o", "remotes", "s", "heads"}
+	for i, old := range nsOld {
+		for j, nw := range nsNew {
+			if old == nw {
+				continue
+			}
+			other := nsOld[(i+1)%len(nsOld)]
+			pre := []*xt.T{
+				c15SetLog("remotes/"+old+"/main", v[0], m[0]), c15Set("remotes/"+old+"/dev/x", v[1]),
+				c15SetLog("remotes/"+old+"/"+old, v[2], m[1]), c15SetLog("remotes/"+old+"/main", v[1], m[2]),
+				c15Set("remotes/"+other+"/main", v[2]), c15SetLog("heads/main", v[0], m[0]), c15Set("heads/"+old, v[1]),
+				c15Set("tags/"+old, v[2]), c15List(2, old), c15KK(10, old, nw),
+			}
+			obsv := []*xt.T{c15F(5, nil, nil), c15List(2, old), c15List(2, nw), c15List(2, other), c15List(0, ""),
+				c15K(2, "remotes/"+nw+"/main"), c15K(8, "remotes/"+nw+"/main"), c15K(8, "remotes/"+nw+"/"+old),
+				c15K(8, "remotes/"+old+"/main"), c15K(9, nw), c15F(4, nil, nil), c15K(9, other), c15F(5, nil, nil)}
+			add("nsrem", true, c15Seq(append(pre, obsv...)...))
+			ctx.Count("nsrem_cases")
+			// the same through the real commands on an on-disk repository (every 3rd pair in quick)
+			if ctx.Thorough() || (i+j)%3 == 0 {
+				cli := append(append([]*xt.T{}, pre[:len(pre)-1]...), c15KK(17, old, nw))
+				cli = append(cli, obsv[:9]...)
+				cli = append(cli, c15K(18, nw), c15F(4, nil, nil), c15K(18, other), c15F(5, nil, nil))
+				add("cli", true, c15SeqKind(2, cli...))
+				ctx.Count("cli_cases")
+			}
+		}
+	}
+	// random command sequences on the on-disk repository
+	ncli := 40
+	if ctx.Thorough() {
+		ncli = 600
+	}
+	cliRemotes := append(append([]string{}, c15NsRemotes...), "a_b", "A_B", "acb", "a%", "origin", "a")
+	for i := 0; i < ncli; i++ {
+		rs := []string{}
+		for j := 0; j < 2+ctx.Pick(3); j++ {
+			rs = append(rs, pick(cliRemotes))
+		}
+		br := []string{"main", "dev/x", "o", "remotes", rs[0]}
+		ops := []*xt.T{}
+		for j := 0; j < 3+ctx.Pick(10); j++ {
+			r := ctx.Pick(10)
+			switch {
+			case r < 4:
+				ops = append(ops, c15SaveRef("remotes/"+pick(rs)+"/"+pick(br), v[ctx.Pick(len(v))], m[ctx.Pick(len(m))]))
+			case r < 5:
+				ops = append(ops, c15Set([]string{"heads/", "tags/"}[ctx.Pick(2)]+pick(rs), v[ctx.Pick(len(v))]))
+			case r < 8:
+				a, b := pick(rs), pick(cliRemotes)
+				if a != b {
+					ops = append(ops, c15KK(17, a, b))
+					rs = append(rs, b)
+					ctx.Count("op_cli_rename")
+				}
+			case r < 9:
+				ops = append(ops, c15K(18, pick(rs)))
+				ctx.Count("op_cli_remove")
+			default:
+				ops = append(ops, c15List(2, pick(rs)))
+			}
+		}
+		ops = append(ops, c15F(4, nil, nil))
+		for _, r := range rs {
+			ops = append(ops, c15List(2, r), c15K(8, "remotes/"+r+"/main"))
+		}
+		add("cli", true, c15SeqKind(2, ops...))
+		ctx.Count("cli_cases")
+	}
+
+	// ---- long logs (file store judged strictly, always run): 1..40 logged sets per name (more in
+	// thorough), messages of every length so that the 1024-byte chunks of the backward line scanner
+	// of pkg/ref/fs's LogReader are cut at every position of a line; logs carried by rename / copy
+	fsNames := []string{"heads/main", "heads/dev", "remotes/o/main", "tags/v1", "heads/feat%_x", "remotes/remotes/main"}
+	fsAuthors := []string{"John Doe", "a_b", "Jane", "o", "Zoë"}
+	fsEmails := []string{"", "john@doe.com", "j@x", "x1@2.3"}
+	fsActions := []string{"commit", "fetch", "merge", "x"}
+	msgAlpha := []string{"a", "b", " ", ":", "0", "7", "<", ">", "%", "_", "é", "€", "[", "-"}
+	nfs, maxLog, maxMsg := 60, 40, 130
+	if ctx.Thorough() {
+		nfs, maxLog, maxMsg = 1200, 150, 300
+	}
+	for i := 0; i < nfs; i++ {
+		nn := 1 + ctx.Pick(3)
+		ns := []string{}
+		for len(ns) < nn {
+			n := pick(fsNames)
+			dup := false
+			for _, x := range ns {
+				dup = dup || x == n
+			}
+			if !dup {
+				ns = append(ns, n)
+			}
+		}
+		fresh := 0
+		ops := []*xt.T{}
+		cnt := map[string]int{}
+		total := 1 + ctx.Pick(maxLog)
+		msgBase := ctx.Pick(maxMsg) // per-case typical length, so that all line lengths occur
+		for j := 0; j < total; j++ {
+			k := ns[ctx.Pick(len(ns))]
+			ml := msgBase + ctx.Pick(12)
+			if ctx.Pick(8) == 0 {
+				ml = ctx.Pick(maxMsg)
+			}
+			if ctx.Thorough() && ctx.Pick(60) == 0 {
+				ml = 900 + ctx.Pick(1400) // a line longer than one chunk
+			}
+			msg := ""
+			for len(msg) < ml {
+				msg += pick(msgAlpha)
+			}
+			mt := c15Meta{pick(fsAuthors), pick(fsEmails), pick(fsActions), msg, nil}
+			if ctx.Pick(5) == 0 {
+				ops = append(ops, c15SaveRef(k, v[ctx.Pick(len(v))], mt))
+			} else {
+				ops = append(ops, c15SetLog(k, v[ctx.Pick(len(v))], mt))
+			}
+			cnt[k]++
+			switch r := ctx.Pick(40); {
+			case r < 3:
+				ops = append(ops, c15K(8, k))
+			case r < 5:
+				ops = append(ops, c15Set(k, v[ctx.Pick(len(v))]))
+			case r < 6:
+				ops = append(ops, c15K(2, k))
+			case r < 7 && cnt[k] > 2: // carry the log to a fresh name
+				fresh++
+				nk := fmt.Sprintf("heads/moved%d", fresh)
+				ops = append(ops, c15KK(6+ctx.Pick(2), k, nk), c15K(8, nk), c15K(8, k))
+				ns = append(ns, nk)
+			case r < 8 && cnt[k] > 4:
+				ops = append(ops, c15K(3, k), c15K(8, k))
+				cnt[k] = 0
+			}
+		}
+		for _, k := range ns {
+			ops = append(ops, c15K(2, k), c15K(8, k))
+		}
+		ops = append(ops, c15F(5, nil, nil), c15F(4, []string{"heads/"}, nil))
+		ctx.Count("fslog_cases")
+		if total >= 8 {
+			ctx.Count("fslog_cases_with_8_or_more_logged_sets")
+		}
+		add("fslog", total >= 2, c15SeqKind(3, ops...))
 	}
 
 	// ---- SQLite LIKE / instr against Like.v: exhaustive short strings + random with UTF-8
@@ -560,7 +730,7 @@ func c15Exec(s ref.Store, op *xt.T, fsMode bool) (obs *xt.T) {
 }
 
 var c15OpNames = []string{"set", "setlog", "get", "delete", "filter", "filterkey", "rename", "copy", "logread",
-	"delremote", "renremote", "deltx", "listrefs", "renameref", "copyref", "saveref", "listlocal"}
+	"delremote", "renremote", "deltx", "listrefs", "renameref", "copyref", "saveref", "listlocal", "cli-remote-rename", "cli-remote-remove"}
 
 // ---------------------------------------------------------------------------
 // oracle: a plain map with per-name logs
@@ -691,7 +861,7 @@ func (o *c15Oracle) exec(op *xt.T, withTx bool) *xt.T {
 			ents.Add(c15EntT(l[i], withTx))
 		}
 		return xt.N(xt.LI(6), ents, xt.Bool(true))
-	case 9, 11:
+	case 9, 11, 18:
 		p := "remotes/" + str(1) + "/"
 		if op.Kids[0].N == 11 {
 			p = "txs/" + str(1) + "/"
@@ -700,7 +870,7 @@ func (o *c15Oracle) exec(op *xt.T, withTx bool) *xt.T {
 			o.del(k)
 		}
 		return c15ok()
-	case 10:
+	case 10, 17:
 		// every ref of the old remote, in name order, moves to the same name under the new
 		// remote; the first one that cannot move stops the operation with an error
 		p, q := "remotes/"+str(1)+"/", "remotes/"+str(2)+"/"
@@ -824,14 +994,40 @@ func runC15(ctx *Ctx, c *xt.T) (*xt.T, Verdict) {
 		return xt.N(xt.Bool(like), xt.Bool(pos == 1)), v
 	}
 	ops := c.Kids[1].Kids
+	if c.Kids[0].N == 2 {
+		return c15RunRepo(ctx, ops)
+	}
 	db := c15OpenDB()
 	defer db.Close()
 	s := refsql.NewStore(db)
+	out, v := c15RunSQL(s, db, ops, nil)
+	// thorough tier: the file store (slow: real files) runs on a third of the kind-0 cases
+	if h := fnv.New32a(); c.Kids[0].N == 3 || !ctx.Thorough() || func() bool { h.Write([]byte(c.String())); return h.Sum32()%3 == 0 }() {
+		if fv := c15RunFS(ctx, ops); v.OK && !fv.OK {
+			v = fv
+		}
+	} else {
+		ctx.Count("fs_sequences_not_run")
+	}
+	return out, v
+}
+
+// c15RunSQL runs the ops on a refsql.Store, judging every step against the plain-map oracle (result
+// and tables read back through db).  special, if non-nil, executes the ops c15Exec does not know.
+func c15RunSQL(s ref.Store, db *sql.DB, ops []*xt.T, special func(op *xt.T) *xt.T) (*xt.T, Verdict) {
 	o := &c15Oracle{refs: map[string][]byte{}, logs: map[string][]c15Ent{}}
 	out := xt.N()
 	v := OK()
 	for i, op := range ops {
-		got := c15Exec(s, op, false)
+		var got *xt.T
+		if kind := op.Kids[0].N; kind >= 17 {
+			if special == nil {
+				panic("op 17/18 outside a kind-2 case")
+			}
+			got = special(op)
+		} else {
+			got = c15Exec(s, op, false)
+		}
 		want := o.exec(op, true)
 		out.Add(got)
 		if !v.OK {
@@ -858,26 +1054,77 @@ func runC15(ctx *Ctx, c *xt.T) (*xt.T, Verdict) {
 			str := func(i int) string { return string(op.Kids[i].AsBytes()) }
 			var pfx []string
 			switch kind {
-			case 9:
+			case 9, 18:
 				pfx = []string{"remotes/" + str(1) + "/"}
 			case 11:
 				pfx = []string{"txs/" + str(1) + "/"}
-			case 10:
+			case 10, 17:
 				pfx = []string{"remotes/" + str(1) + "/", "remotes/" + str(2) + "/"}
 			}
 			if pfx != nil && c15OutsidePrefixes(ds, do, pfx) {
-				cls = "bulk-" + map[int]string{9: "delete", 11: "delete", 10: "rename"}[kind] + "-not-literal-prefix"
+				cls = "bulk-" + map[int]string{9: "delete", 11: "delete", 18: "delete", 10: "rename", 17: "rename"}[kind] + "-not-literal-prefix"
 			}
 			v = Fail(cls, "after op #%d %s the tables hold %s, a plain map holds %s", i, op.String(), extra, missing)
 		}
 	}
-	// thorough tier: the file store (slow: real files) runs on a third of the cases
-	if h := fnv.New32a(); !ctx.Thorough() || func() bool { h.Write([]byte(c.String())); return h.Sum32()%3 == 0 }() {
-		c15RunFS(ctx, ops)
-	} else {
-		ctx.Count("fs_sequences_not_run")
-	}
 	return out, v
+}
+
+// c15RunRepo: a real repository directory (sqlite.db file created by pkg/local + migrations); the
+// ref store is the one the commands use (RepoDir.OpenRefStore), ops 17/18 are the commands themselves.
+func c15RunRepo(ctx *Ctx, ops []*xt.T) (*xt.T, Verdict) {
+	os.Setenv("XDG_CONFIG_HOME", filepath.Join(ctx.Tmp, "xdg"))
+	os.Setenv("HOME", filepath.Join(ctx.Tmp, "home"))
+	root, err := os.MkdirTemp(c10ScratchBase(ctx), "c15")
+	if err != nil {
+		panic(err)
+	}
+	defer os.RemoveAll(root)
+	wrglDir := filepath.Join(root, ".wrgl")
+	rd, err := local.NewRepoDir(wrglDir, "")
+	if err != nil {
+		panic(err)
+	}
+	if err := rd.Init(); err != nil {
+		panic(err)
+	}
+	defer rd.Close()
+	db, err := sql.Open("sqlite3", filepath.Join(wrglDir, "sqlite.db"))
+	if err != nil {
+		panic(err)
+	}
+	defer db.Close()
+	cs := conffs.NewStore(wrglDir, conffs.LocalSource, "")
+	cfg := &conf.Config{User: &conf.User{Name: "John Doe", Email: "john@domain.com"}, Remote: map[string]*conf.Remote{}}
+	if err := cs.Save(cfg); err != nil {
+		panic(err)
+	}
+	special := func(op *xt.T) *xt.T {
+		str := func(i int) string { return string(op.Kids[i].AsBytes()) }
+		// `remote rename` exits the process for a remote the configuration does not know: keep
+		// the configuration in step (a remote exists in it as soon as it is named by a command)
+		cfg, err := cs.Open()
+		if err != nil {
+			panic(err)
+		}
+		if cfg.Remote == nil {
+			cfg.Remote = map[string]*conf.Remote{}
+		}
+		if _, ok := cfg.Remote[str(1)]; !ok {
+			cfg.Remote[str(1)] = &conf.Remote{URL: "http://localhost/" + fmt.Sprintf("%x", str(1))}
+			if err := cs.Save(cfg); err != nil {
+				panic(err)
+			}
+		}
+		var outcome int
+		if op.Kids[0].N == 17 {
+			_, outcome = c10RunCmd(wrglDir, "remote", "rename", str(1), str(2))
+		} else {
+			_, outcome = c10RunCmd(wrglDir, "remote", "remove", str(1))
+		}
+		return xt.N(xt.LI(outcome))
+	}
+	return c15RunSQL(rd.OpenRefStore(), db, ops, special)
 }
 
 func c15Short(t *xt.T) string {
@@ -940,25 +1187,170 @@ func c15Diff(a, b string) string {
 }
 
 // ---------------------------------------------------------------------------
-// the file store: same sequence, differences from the oracle counted, never failed
+// the file store: same sequence.  Strict (verdict fs-*) inside c15FSDomain, counted outside.
+
+// c15FSDomain decides, step by step, whether the file store can be expected to behave like the flat
+// map: it keeps refs/<name> and logs/<name> as FILES under directories named by the name's path
+// components, writes the reflog as one text line, lists by walking ONE directory, and checks no
+// precondition of delete/rename/copy.  ever = every name that has been a file target so far
+// (directories are never removed, so a conflict is for ever).
+type c15FSDomain struct{ ever map[string]bool }
+
+func c15CleanName(n string) bool {
+	return n != "" && n != "." && path.Clean(n) == n && !strings.HasPrefix(n, "/") && n != ".." &&
+		!strings.HasPrefix(n, "../") && !strings.ContainsAny(n, "\x00")
+}
+
+// nameOK: clean, and neither a directory of nor below any name ever written
+func (d *c15FSDomain) nameOK(n string) bool {
+	if !c15CleanName(n) {
+		return false
+	}
+	for e := range d.ever {
+		if e != n && (strings.HasPrefix(e, n+"/") || strings.HasPrefix(n, e+"/")) {
+			return false
+		}
+	}
+	return true
+}
+
+// what ref.Reflog.WriteTo / Read (one text line "old new author <email> time action: message") can carry
+func c15MetaTextOK(m c15Meta) bool {
+	noNL := func(s string) bool { return !strings.ContainsAny(s, "\n\r") }
+	tail := func(s string) string {
+		if s == "" {
+			return ""
+		}
+		return s[1:]
+	}
+	return m.author != "" && noNL(m.author) && !strings.ContainsAny(tail(m.author), "<0123456789") &&
+		noNL(m.email) && !strings.Contains(tail(m.email), ">") &&
+		m.action != "" && noNL(m.action) && !strings.Contains(tail(m.action), ":") && noNL(m.message)
+}
+
+// inDomain reports whether the step is inside the sub-domain given the map's state BEFORE the step,
+// and whether the step mutates (a mutating step outside the sub-domain ends strict judgement).
+func (d *c15FSDomain) inDomain(op *xt.T, o *c15Oracle) (in bool, mutating bool) {
+	str := func(i int) string { return string(op.Kids[i].AsBytes()) }
+	has := func(k string) bool { _, ok := o.refs[k]; return ok }
+	dirQuery := func(ps, ns []string) bool {
+		if len(ns) > 0 || len(ps) > 1 {
+			return false
+		}
+		return len(ps) == 0 || ps[0] == "" || (strings.HasSuffix(ps[0], "/") && c15CleanName(strings.TrimSuffix(ps[0], "/")))
+	}
+	moveOK := func(a, b string, needLog bool) bool {
+		if !c15CleanName(a) || !c15CleanName(b) {
+			return false
+		}
+		if !has(a) {
+			return true // both fail, nothing changes
+		}
+		return !has(b) && d.nameOK(b) && (!needLog || len(o.logs[a]) > 0)
+	}
+	switch op.Kids[0].N {
+	case 0:
+		return d.nameOK(str(1)), true
+	case 1, 15:
+		return d.nameOK(str(1)) && c15MetaTextOK(c15ParseMeta(op.Kids[3])), true
+	case 2:
+		return c15CleanName(str(1)), false
+	case 3:
+		return has(str(1)), true
+	case 4, 5:
+		return dirQuery(c15Strs(op.Kids[1]), c15Strs(op.Kids[2])), false
+	case 6, 13:
+		return moveOK(str(1), str(2), false), true
+	case 7, 14:
+		return moveOK(str(1), str(2), true), true
+	case 8:
+		return d.nameOK(str(1)), false
+	case 9:
+		return c15CleanName(str(1)), true
+	case 11:
+		return true, true
+	case 10:
+		a, b := str(1), str(2)
+		if !c15CleanName(a) || !c15CleanName(b) {
+			return false, true
+		}
+		p, q := "remotes/"+a+"/", "remotes/"+b+"/"
+		keys := o.keys([]string{p}, nil)
+		if len(keys) == 0 {
+			return true, true
+		}
+		// the file store walks breadth-first, not in name order, and overwrites: only a rename
+		// whose every destination is free (order-independent, cannot fail) is comparable
+		if strings.HasPrefix(p, q) || strings.HasPrefix(q, p) {
+			return false, true
+		}
+		for _, k := range keys {
+			if dst := q + k[len(p):]; has(dst) || !d.nameOK(dst) {
+				return false, true
+			}
+		}
+		return true, true
+	case 12:
+		if op.Kids[1].N == 2 {
+			return c15CleanName(str(2)), false
+		}
+		return true, false
+	default: // ListLocalRefs: notPrefixes are ignored by the file store
+		return false, false
+	}
+}
+
+// note records the names the step may have created files or directories for
+func (d *c15FSDomain) note(op *xt.T, o *c15Oracle, keysBefore []string) {
+	str := func(i int) string { return string(op.Kids[i].AsBytes()) }
+	switch op.Kids[0].N {
+	case 0, 1, 15:
+		d.ever[str(1)] = true
+	case 6, 7, 13, 14:
+		d.ever[str(2)] = true
+	case 10:
+		p, q := "remotes/"+str(1)+"/", "remotes/"+str(2)+"/"
+		for _, k := range keysBefore {
+			if strings.HasPrefix(k, p) {
+				d.ever[q+k[len(p):]] = true
+			}
+		}
+	}
+}
 
 var c15FSSeen = map[string]bool{}
 
-func c15RunFS(ctx *Ctx, ops []*xt.T) {
+func c15RunFS(ctx *Ctx, ops []*xt.T) Verdict {
 	dir := filepath.Join(ctx.Tmp, "c15fs")
 	os.RemoveAll(dir)
 	defer os.RemoveAll(dir)
 	s := reffs.NewStore(dir)
 	o := &c15Oracle{refs: map[string][]byte{}, logs: map[string][]c15Ent{}}
+	dom := &c15FSDomain{ever: map[string]bool{}}
+	strict := true
 	diverged := false
-	for _, op := range ops {
+	for i, op := range ops {
+		kind := int(op.Kids[0].N)
+		in, mutating := dom.inDomain(op, o)
+		if strict && !in && mutating {
+			strict = false
+			ctx.Count("fs_strict_ends_at_" + c15OpNames[kind])
+		}
+		keysBefore := o.keys(nil, nil)
 		got := c15Exec(s, op, true)
 		want := o.exec(op, false)
+		dom.note(op, o, keysBefore)
 		if got.String() == want.String() {
 			ctx.Count("fs_steps_agree")
+			if strict && in {
+				ctx.Count("fs_steps_strict_ok")
+			}
 			continue
 		}
-		kind := int(op.Kids[0].N)
+		if strict && in {
+			return Fail("fs-"+c15OpNames[kind], "file store, op #%d %s (inside the flat-map sub-domain): store returned %s, a plain map gives %s",
+				i, op.String(), c15Short(got), c15Short(want))
+		}
 		how := "value"
 		g, w := got.Kids[0].N, want.Kids[0].N
 		switch {
@@ -970,12 +1362,9 @@ func c15RunFS(ctx *Ctx, ops []*xt.T) {
 			how = "panic"
 		}
 		cls := "fs_diff_" + c15OpNames[kind] + "_" + how
-		readOnly := false
+		readOnly := !mutating
 		switch kind {
-		case 2, 8, 12:
-			readOnly = true
 		case 4, 5, 16:
-			readOnly = true
 			// the file store walks the directory named by the FIRST prefix and ignores the rest
 			// and all notPrefixes: only a single prefix that is "" or ends in "/" is comparable
 			ps, ns := c15Strs(op.Kids[1]), c15Strs(op.Kids[2])
@@ -991,12 +1380,16 @@ func c15RunFS(ctx *Ctx, ops []*xt.T) {
 		diverged = true
 		if !readOnly {
 			ctx.Count("fs_sequences_state_diverged")
-			return // the states have diverged; later differences would be consequences
+			return OK() // the states have diverged; later differences would be consequences
 		}
+	}
+	if strict {
+		ctx.Count("fs_sequences_strict_to_the_end")
 	}
 	if diverged {
 		ctx.Count("fs_sequences_read_differences_only")
-		return
+		return OK()
 	}
 	ctx.Count("fs_sequences_agreeing")
+	return OK()
 }
